@@ -405,8 +405,24 @@ def run_face_history_impl(calls):
         return 99  # not a current corner of the operation (stale or wrong)
 
     obs = []
+    # in most histories (chosen by the history itself, so that replays agree) the operation is looked at / assembled into a
+    # mesh of its own before one of the steps: what it hands out later is a function of its faces as they are then
+    peek_at = sum(len(str(x)) for c in calls for x in c) % (len(calls) + 2)
+
+    def assemble_corners():
+        mesh = cb.Mesh()
+        mesh.add(op)
+        with warnings.catch_warnings():
+            warnings.simplefilter("ignore")
+            mesh.assemble()
+        return [ident(v.position) for v in mesh.block_list.blocks[0].vertices]
+
     try:
         for step, c in enumerate(calls):
+            if step == peek_at:
+                _ = [p.position for p in op.points], op.point_array, op.center
+                if step % 2 == 0:
+                    assemble_corners()
             vec = [0.013 * (step + 1), -0.007 * (step + 2), 0.011 * (step + 3)]
             if c[0] == "get_face":
                 face = op.get_face(c[1])
@@ -428,9 +444,10 @@ def run_face_history_impl(calls):
                 op.invert()
         final = [[pid.get(id(p), 98) for p in op.bottom_face.points], [pid.get(id(p), 98) for p in op.top_face.points],
                  [eid.get(id(e), 98) for e in op.bottom_face.edges], [eid.get(id(e), 98) for e in op.top_face.edges]]
+        corners = [[pid.get(id(p), 98) for p in op.points], assemble_corners()]
     except Exception as e:
         return ("error", exc_enum(e))
-    return ("ok", obs, final)
+    return ("ok", obs, final, corners)
 
 
 def coq_fcall(c):
@@ -465,6 +482,11 @@ def oracle_face_history(calls, out):
     f = out[2]
     if sorted(f[0] + f[1]) != list(range(8)):
         return "faces lost/duplicated points: %s" % (f,)
+    if len(out) > 3:
+        if out[3][0] != f[0] + f[1]:
+            return "Operation.points %s are not the bottom face's points followed by the top face's %s" % (out[3][0], f[0] + f[1])
+        if out[3][1] != f[0] + f[1]:
+            return "the block's corners %s are not the bottom face's points followed by the top face's %s" % (out[3][1], f[0] + f[1])
     return ""
 
 
